@@ -38,6 +38,10 @@ def run(ctx):
     check_utf16_helper(ctx)
     import nullret
     nullret.check(ctx, prog, 'C06', ('Xdl.cpp',))
+    # what the decoder makes of each escape sequence (shared with C05: the encoder's text for every byte, read back through the
+    # interpreted decoder transitions, must be that byte - a swapped or missing escape letter changes the decoded value)
+    import C05
+    C05.check_escape(ctx, prog)
     return __doc__.split('\n\n', 1)[1]
 
 
